@@ -4,8 +4,11 @@ CONSTANT KindSets <- KindSetsQuick
 CONSTANT Placements <- PlacementsQuick
 CONSTANT SubPatterns <- SubsQuick
 CONSTANT TurnVals <- TurnsQuick
+CONSTANT RangePatterns <- RangeNear
+CONSTANTS MaxHist = 0 ContinueFrom = "any"
 INVARIANT PosteriorIsBasePosterior
 INVARIANT InnovationInRange
 INVARIANT InnovationIsAngleResidual
 INVARIANT StackIsPermutation
 PROPERTY GroupKeepsPosterior
+PROPERTY PosteriorIgnoresHistory
